@@ -40,7 +40,9 @@ def instances(tier, rng):
     for kind, us in (("dag", dags), ("cyc", cycs)):
         mincls = "MinPathCover" if kind == "dag" else "MinPathCoverCycles"
         kcls = "kPathCover" if kind == "dag" else "kPathCoverCycles"
-        for u in us:
+        for j, u in enumerate(us):
+            if j % 6 == 5 and len(u["nodes"]) <= len(C.UNDERSCORED):
+                u = C.rename_scheme(u, C.UNDERSCORED[:len(u["nodes"])])
             feats = [{}, {"mode": "node"}]
             extra = []
             if len(u["edges"]) >= 2:
